@@ -132,7 +132,7 @@ def BuildOutcome.toFull : BuildOutcome → FullOutcome
   | .attributeError => .attributeError
 
 def rowRelsInScope (d : ClassDiagram) (comp : Option Nat) : List RowRel :=
-  d.rowRels.filter (fun r => inScope d.containers comp r.parent)
+  d.rowRels.filter (fun r => inScope d.containers d.pkgrefs comp r.parent)
 
 /-- the first `mk_association` call (list order) that raises -/
 def firstRaise : List AssocOutcome → Option FullOutcome
